@@ -168,6 +168,7 @@ M("C09", "c09_m_hop_roundtrip", ["Hop::serialize_for_net", "Hop::deserialize_fro
 M("C09", "c09_m_tx_roundtrip", ["Transaction::serialize_for_net_with_hop", "Transaction::deserialize_from_net", "Slip::serialize_for_net / deserialize_from_net", "Hop::serialize_for_net / deserialize_from_net"],
   "shapes inputs/outputs/hops in {1/1/0, 2/1/1, 0/2/0, 1/0/1} (thorough: all of 0..=2 each), payload of 0..=6 symbolic bytes, every field of every element symbolic; decode must be Ok and equal fieldwise", covers=4)
 M("C09", "c09_m_block_header_roundtrip", ["Block::serialize_for_net(Header)", "Block::deserialize_from_net"], "every value of the 31 header fields on the wire (389 bytes); decode must be Ok and equal fieldwise; native replay", covers=1)
+M("C09", "c09_m_message_tag_agreement", ["Message::deserialize", "Message::get_type_value"], "every buffer of length 0..=200, every tag byte: a decoded message is of the variant whose type value is the first byte", covers=1)
 M("C09", "c09_m_tx_size_prediction", ["Transaction::get_serialized_size", "Transaction::serialize_for_net_with_hop", "Slip::serialize_for_net", "Hop::serialize_for_net"], "0..=2 inputs x 0..=1 outputs x 0..=2 hops (thorough 2/2/3), payload length symbolic below 2^32, all field values symbolic", covers=10)
 M("C09", "c09_m_tx_counts_agree", ["Transaction::deserialize_from_net (header section)", "Transaction::serialize_for_net_with_hop (accepted counts: <=255 inputs/outputs)"],
   "count fields symbolic with inputs, outputs <= 255, message <= 2^20, hops <= 64, buffer length exactly the encoded size; element loops cut at the first iteration")
@@ -187,6 +188,7 @@ PROPERTY_ASSUMPTIONS["C08"] += ["gates: all paths of Block::validate with free c
 M("C08", "c08_block_work_gate", [BVX, "BurnFee::return_routing_work_needed_to_produce_block_in_nolan (uninterpreted)"], "every path returning true with a known non-ghost parent; total_work and the requirement free u64")
 M("C08", "c08_block_gt_gate", [BVX, "GoldenTicket::validate (uninterpreted)"], "every path returning true on which a golden ticket is examined")
 M("C08", "c08_winning_router_eligible", ["Transaction::get_winning_routing_node"], "0..=3 hops (thorough 5), 0..=2 inputs, fee within the token supply, lottery remainder a symbolic input below the aggregate work", covers=1)
+M("C08", "c08_requirement_zero_after_two_heartbeats", ["BurnFee::return_routing_work_needed_to_produce_block_in_nolan"], "every parent burn fee, timestamps and heartbeat (u64); the integer gates (misordered timestamps, elapsed >= 2 x heartbeat => 0); the float curve below two heartbeats is an arbitrary value; native replay", covers=1)
 PROPERTY_ASSUMPTIONS["C13"] = [
     "engine M gates only: the validator requires the block's rebroadcast commitment to equal the recomputed one, and the in-block double-spend scan treats ATR transactions like any other spender. Which outputs are selected for rebroadcast, their amounts, 'exactly once' and expiry over histories are outside the claim",
 ]
@@ -198,6 +200,7 @@ M("C01", "c01_ledger_check_switch", ["Blockchain::has_total_supply_loaded", "Blo
 M("C02", "c02_generate_commits_every_atr", ["saito_core::core::consensus::block::Block::generate (second sweep)"], "same as c13_generate_commits_every_atr: the ATR type, exempt from the no-mint comparison, cannot bypass the commitment", covers=2)
 M("C13", "c13_pruned_block_selection", ["Block::generate_consensus_values (async body, up to the point where the block leaving the window is loaded)"], "block id and genesis period symbolic; parent block not indexed (its arithmetic is independent and skipped)", covers=1)
 M("C13", "c13_nft_group_not_split", ["Block::generate_consensus_values (async body, rebroadcast section: collection pass and regrouping pass)"], "block loaded from disk a symbolic input: one transaction with outputs [Bound, payload of any non-Bound type, Bound], all unspent; amounts within the supply; parent not indexed (multiplier 1)", covers=1)
+M("C13", "c13_atr_inputs_checked_against_ledger", ["Transaction::validate_against_utxoset"], "transactions of every type except Fee with 1..=2 inputs; Slip::validate verdicts free", covers=1)
 M("C13", "c13_atr_inputs_recorded", [CLO], "ATR-typed transactions with 1..=2 inputs, one arbitrary key already recorded for the block")
 
 # ============================================================================== C04 (and the composition half of C03)
@@ -218,6 +221,7 @@ PROPERTY_ASSUMPTIONS["C16"] = [
     "the queue is given sorted by strictly increasing id, so the stable sort inside the round is modelled as the identity (equal ids with hash tie-break are outside the claim); other operations (announcements, mark_as_failed / fetched, remove_entry) and liveness over unbounded histories are outside this revision's claim",
 ]
 M("C16", "c16_mark_as_failed_step", ["BlockchainSyncState::mark_as_failed"], "queues of 1..=3 entries, ids (equal ids allowed) and 32-byte hashes symbolic, every status pattern", covers=3)
+M("C16", "c16_picture_no_duplicates", ["BlockchainSyncState::build_peer_block_picture"], "one peer, fetch queue of 2..=3 entries (thorough 4) in any order without duplicates, one announced (id, hash) possibly equal to any queued entry; the final map clean-ups are cut", covers=1)
 M("C16", "c16_select_step", ["saito_core::core::consensus::blockchain_sync_state::BlockchainSyncState::get_blocks_to_fetch_per_peer"],
   "queues of 1..=3 entries (thorough 4): every status pattern (4^n), ids, retry counters (full u32) and batch size symbolic; ~14 clauses per path", covers=3)
 
@@ -232,6 +236,7 @@ M("C19", "c19_find_slips_for_staking", ["Wallet::find_slips_for_staking", "Walle
 M("C19", "c19_remove_old_slips", ["Wallet::remove_old_slips", "Wallet::delete_slip"], "wallets with 1..=2 slips in every layout; bound and creation heights symbolic", covers=4)
 M("C19", "c19_generate_slips", ["Wallet::generate_slips"], "wallets with 1..=2 unspent slips (thorough 3); requested amount, latest block id, genesis period symbolic; conservation of inputs/change in u128; funds outside the expiry margin that cover the request are gathered", covers=2)
 
+M("C19", "c19_reorg_records_ledger_location", ["Wallet::on_chain_reorganization (longest-chain branch)"], "block of two transactions: first of any type (SPV placeholder with symbolic txs_replacements included), second paying the wallet; NFT detection answers false", covers=1)
 # ============================================================================== C17
 PROPERTY_ASSUMPTIONS["C17"] = [
     "one step: Peer::handle_handshake_response from an arbitrary Peer state and response; the signature check crypto::verify is a free predicate V (consistent: asked once per step), sign / I/O / configuration / version comparison are free; every poll Ready",
@@ -275,6 +280,7 @@ M("C14", "c14_add_transaction_step", ["Mempool::add_transaction (async body)"], 
 M("C14", "c14_reorg_revalidates_pool", ["Blockchain::remove_block_transactions", "its retain closure"], "all paths of both bodies, callees uninterpreted")
 M("C14", "c14_delete_recomputes_work", ["Mempool::delete_transactions", "Blockchain::remove_block_transactions"], "pool of two transactions with symbolic work and signatures, stale counter arbitrary, confirmed transaction arbitrary; call order on every path of remove_block_transactions", covers=2)
 M("C14", "c14_bundle_releases_reservations", ["Mempool::bundle_block (async body)"], "the created block a symbolic input: two transactions of symbolic type with one reserved input each; staking transaction / can_bundle / generate answers favourable", covers=1)
+M("C14", "c14_delete_keeps_pooled_reserved", ["Mempool::delete_transactions"], "pool with one transaction (Inv), block carrying a different transaction whose input may or may not be the same output; signatures, keys, type symbolic", covers=1)
 M("C14", "c14_delete_releases_reservations", ["Mempool::delete_transactions"], "pool holding one transaction with one input; the block confirms that transaction")
 
 # ============================================================================== C02
@@ -300,3 +306,4 @@ M("C11", "c11_ghost_request_any_peer", ["RoutingThread::process_ghost_chain_requ
 M("C11", "c11_verify_block_total", ["VerificationThread::verify_block (async body)"], "buffer that fails to decode / decodes and fails Block::generate / decodes and generates; id and hash symbolic")
 M("C11", "c11_gt_payload", ["Mempool::add_golden_ticket (async body)", "GoldenTicket::deserialize_from_net"], "GoldenTicket-typed transaction with a data field of every length 0..=200")
 M("C11", "c11_network_handshake_gate", ["Network::handle_handshake_response (async body)"], "same as c17_network_gate: a rejected response from a peer in any state ends in a plain return, no panic", covers=1)
+M("C11", "c11_shared_ancestor_total", ["Blockchain::generate_last_shared_ancestor", "generate_last_shared_ancestor_when_peer_ahead", "generate_last_shared_ancestor_when_peer_behind"], "every peer latest-block id, fork id and own tip (u64); index look-ups answer Some(hash) with the first compared byte equal (the other mismatch case is folded); overflow checks on (dev-profile semantics)", covers=1)
